@@ -7,7 +7,7 @@
 (* (and two models): the algebra of apply / un-apply and the fixed-point    *)
 (* theorems of the ML updates (F1-F4).                                      *)
 EXTENDS MLNorm
-CONSTANTS MaxN, MaxR, MaxCellsM5, MlN, MlR
+CONSTANTS MaxN, MaxR, MaxCellsM5, MlN, MlR, Families
 MlExp == {-1, 0, 1}
 VARIABLES mode, g, k, memo, x
 
@@ -146,13 +146,14 @@ F4(c, mm, xx) ==
      /\ ApplyBlockOk(c, mm.cells, blkOff, D, B0, M, FALSE)
 
 \* exponent assignments: all of them for one ring, a family of patterns for more
-XSet(n) == IF n <= MlN THEN [1..n -> MlExp]
-           ELSE { [ i \in 1..n |-> ((i * p + (i \div 3) * q + (i \div MlN) * s) % 3) - 1 ] : p \in 0..2, q \in 0..2, s \in 0..2 }
-Init == \/ /\ mode = "geo" /\ g \in Configs /\ k = 0 /\ memo = << >> /\ x = << >>
-        \/ /\ mode = "ml" /\ g \in MlConfigs /\ k = 0 /\ memo = << >>
+Patterns(n) == { [ i \in 1..n |-> ((i * p + (i \div 3) * q + (i \div MlN) * s) % 3) - 1 ] : p \in 0..2, q \in 0..2, s \in 0..2 }
+XSet(n) == IF n <= MlN THEN [1..n -> MlExp] ELSE Patterns(n)
+Init == \/ /\ "geo" \in Families /\ mode = "geo" /\ g \in Configs /\ k = 0 /\ memo = << >> /\ x = << >>
+        \/ /\ "ml" \in Families /\ mode = "ml" /\ g \in MlConfigs /\ k = 0 /\ memo = << >>
            /\ x \in XSet(g.R * NPhys(g))
 LoadMemo == k = 0 /\ k' = 1 /\ memo' = Memo(g) /\ UNCHANGED << mode, g, x >>
-NextTheorem == k >= 1 /\ k < (IF mode = "geo" THEN 6 ELSE 4) /\ k' = k + 1 /\ UNCHANGED << mode, g, memo, x >>
+\* F1, F2 for every assignment; F3, F4 (distributivity over classes / block pairs) for the patterns
+NextTheorem == k >= 1 /\ k < (IF mode = "geo" THEN 6 ELSE IF x \in Patterns(Len(x)) THEN 4 ELSE 2) /\ k' = k + 1 /\ UNCHANGED << mode, g, memo, x >>
 Next == LoadMemo \/ NextTheorem
 Spec == Init /\ [][Next]_vars
 
